@@ -122,4 +122,20 @@ theorem alg_split_total_f64 (lib : Libm) (x : Nat) (s : Bool) (m : Nat) (e : Int
   rw [(copies_agree_f64 lib x x).2.2.2.2.1]
   exact utils_split_total_f64 lib x s m e dx nm bx
 
+/-- `apmath.split` (= `split_veltkamp(x, scale=True)`) on bit patterns, unconditional (binary32), through `copies_agree_f32` -/
+theorem apmath_split_total_f32 (lib : Libm) (x : Nat) (s : Bool) (m : Nat) (e : Int) (dx : decode binary32 x = .fin s m e)
+    (nm : 2 ^ 23 ≤ m) (he : binary32.emin + 12 ≤ e) (bx : |valQ s m e| ≤ 2 ^ (111 : ℤ)) :
+    ∃ h l : Nat, apmath_split_f32.eval lib [x] = some [h, l] ∧ isFiniteBits binary32 h = true ∧ isFiniteBits binary32 l = true ∧
+      ∃ qh ql : ℚ, toQ binary32 h = some qh ∧ toQ binary32 l = some ql ∧ qh + ql = valQ s m e ∧ Mult (e + 12) qh ∧ |ql| ≤ 2 ^ (e + 12) / 2 := by
+  rw [(copies_agree_f32 lib x x).2.2.1]
+  exact split_scaled_total_f32 lib x s m e dx nm he bx
+
+/-- `apmath.split` (= `split_veltkamp(x, scale=True)`) on bit patterns, unconditional (binary64), through `copies_agree_f64` -/
+theorem apmath_split_total_f64 (lib : Libm) (x : Nat) (s : Bool) (m : Nat) (e : Int) (dx : decode binary64 x = .fin s m e)
+    (nm : 2 ^ 52 ≤ m) (he : binary64.emin + 27 ≤ e) (bx : |valQ s m e| ≤ 2 ^ (992 : ℤ)) :
+    ∃ h l : Nat, apmath_split_f64.eval lib [x] = some [h, l] ∧ isFiniteBits binary64 h = true ∧ isFiniteBits binary64 l = true ∧
+      ∃ qh ql : ℚ, toQ binary64 h = some qh ∧ toQ binary64 l = some ql ∧ qh + ql = valQ s m e ∧ Mult (e + 27) qh ∧ |ql| ≤ 2 ^ (e + 27) / 2 := by
+  rw [(copies_agree_f64 lib x x).2.2.1]
+  exact split_scaled_total_f64 lib x s m e dx nm he bx
+
 end FAVerif.Props.C10
